@@ -16,6 +16,12 @@ RULE = ("seeded sample wrappers (transform wrappers for x / other items, multi-v
 
 N = 3
 SEED = 5
+_SEED_OVERRIDE = [None]
+
+
+def seed_value(offset=0):
+    base = SEED if _SEED_OVERRIDE[0] is None else _SEED_OVERRIDE[0]
+    return base + offset
 
 
 def probe_cls():
@@ -131,11 +137,11 @@ def make_stack(wrapper, placement, tspec):
     if placement == "above_identity":
         base = IdW(base)
     if wrapper == "xtransform":
-        w = XTransformWrapper(base, make_transform(tspec), seed=SEED)
+        w = XTransformWrapper(base, make_transform(tspec), seed=seed_value())
     elif wrapper == "multiview":
-        w = KDMultiViewWrapper(base, [(2, make_transform(tspec))], seed=SEED)
+        w = KDMultiViewWrapper(base, [(2, make_transform(tspec))], seed=seed_value())
     elif wrapper == "multiview2":
-        w = KDMultiViewWrapper(base, [make_transform(tspec), (2, make_transform(tspec))], seed=SEED)
+        w = KDMultiViewWrapper(base, [make_transform(tspec), (2, make_transform(tspec))], seed=seed_value())
     else:
         raise ValueError(wrapper)
     idx_map = list(range(N))
@@ -159,24 +165,24 @@ def make_special(name):
     Root = root_cls()
     from kappadata.wrappers.sample_wrappers.kd_mix_wrapper import KDMixWrapper
     if name == "mix":
-        return ModeWrapper(KDMixWrapper(Root("T3_distinct"), mixup_p=1.0, mixup_alpha=0.8, seed=SEED), "x class",
+        return ModeWrapper(KDMixWrapper(Root("T3_distinct"), mixup_p=1.0, mixup_alpha=0.8, seed=seed_value()), "x class",
                            return_ctx=True), list(range(N))
     if name == "mix_p05":
-        return ModeWrapper(KDMixWrapper(Root("T3_distinct"), mixup_p=0.5, mixup_alpha=0.8, seed=SEED + 1), "class x",
+        return ModeWrapper(KDMixWrapper(Root("T3_distinct"), mixup_p=0.5, mixup_alpha=0.8, seed=seed_value(1)), "class x",
                            return_ctx=True), list(range(N))
     if name == "semseg":
         from kappadata.wrappers.sample_wrappers.semseg_transform_wrapper import SemsegTransformWrapper
         from kappadata.transforms.semseg import KDSemsegRandomHorizontalFlip, KDSemsegRandomCrop, KDSemsegRandomResize
         return ModeWrapper(SemsegTransformWrapper(Root("T3"), [
             KDSemsegRandomResize(base_size=(8, 8), ratio=(0.5, 2.0), interpolation="nearest"), KDSemsegRandomCrop(size=4),
-            KDSemsegRandomHorizontalFlip(), probe_like_color()], seed=SEED), "x semseg", return_ctx=True), list(range(N))
+            KDSemsegRandomHorizontalFlip(), probe_like_color()], seed=seed_value()), "x semseg", return_ctx=True), list(range(N))
     if name == "other_items":
         from kappadata.wrappers.sample_wrappers import YTransformWrapper, SourceTransformWrapper, TargetTransformWrapper
         from kappadata.transforms.base.kd_compose_transform import KDComposeTransform
         P = probe_cls()
-        w = YTransformWrapper(Root("T3"), P(), seed=SEED)
-        w = SourceTransformWrapper(w, KDComposeTransform([P()]), seed=SEED + 1)
-        w = TargetTransformWrapper(w, P(), seed=SEED + 2)
+        w = YTransformWrapper(Root("T3"), P(), seed=seed_value())
+        w = SourceTransformWrapper(w, KDComposeTransform([P()]), seed=seed_value(1))
+        w = TargetTransformWrapper(w, P(), seed=seed_value(2))
         return ModeWrapper(w, "y source target", return_ctx=True), list(range(N))
     if name in ("semseg_nested", "semseg_scheduled"):
         from kappadata.wrappers.sample_wrappers.semseg_transform_wrapper import SemsegTransformWrapper
@@ -188,18 +194,18 @@ def make_special(name):
             KDSemsegRandomCrop(size=4), [KDColorJitter(brightness=0.4, contrast=0.4), KDRandomGrayscale(p=0.5)],
             *([KDScheduledTransform(KDRandomColorJitter(p=0.8, brightness=0.4))] if name == "semseg_scheduled" else []),
             PatchwiseTransform(2, KDRandomHorizontalFlip()),
-            KDRandomApply(KDColorJitter(saturation=0.5), p=0.5), KDSemsegRandomHorizontalFlip()], seed=SEED), "x semseg",
+            KDRandomApply(KDColorJitter(saturation=0.5), p=0.5), KDSemsegRandomHorizontalFlip()], seed=seed_value()), "x semseg",
             return_ctx=True), list(range(N))
     import kappadata.common.wrappers.sample_wrappers as cw
     if name == "byol_multiview":
-        return ModeWrapper(cw.ByolMultiViewWrapper(Root("PIL"), seed=SEED), "x", return_ctx=True), list(range(N))
+        return ModeWrapper(cw.ByolMultiViewWrapper(Root("PIL"), seed=seed_value()), "x", return_ctx=True), list(range(N))
     if name == "mugs_multiview":
-        return ModeWrapper(cw.MUGSMultiViewWrapper(Root("PIL"), global_size=8, local_size=8, num_local_crops=2, seed=SEED), "x",
+        return ModeWrapper(cw.MUGSMultiViewWrapper(Root("PIL"), global_size=8, local_size=8, num_local_crops=2, seed=seed_value()), "x",
                            return_ctx=True), list(range(N))
     if name == "imagenet_minaug_multiview":
-        return ModeWrapper(cw.ImagenetMinaugMultiViewWrapper(Root("PIL"), size=8, seed=SEED), "x", return_ctx=True), list(range(N))
+        return ModeWrapper(cw.ImagenetMinaugMultiViewWrapper(Root("PIL"), size=8, seed=seed_value()), "x", return_ctx=True), list(range(N))
     if name == "imagenet_minaug_xtransform":
-        return ModeWrapper(cw.ImagenetMinaugXTransformWrapper(Root("PIL"), size=8, seed=SEED), "x", return_ctx=True), list(range(N))
+        return ModeWrapper(cw.ImagenetMinaugXTransformWrapper(Root("PIL"), size=8, seed=seed_value()), "x", return_ctx=True), list(range(N))
     raise ValueError(name)
 
 
@@ -321,16 +327,20 @@ def task(items):
     p = Partial()
     cat.discover()
     for it in items:
+        _SEED_OVERRIDE[0] = 0 if it[-1] == "seed0" else None
+        if it[-1] == "seed0":
+            it = it[:-1]
+        sfx = "|seed0" if _SEED_OVERRIDE[0] == 0 else ""
         if it[0] == "spec":
             _, wrapper, placement, tspec = it
-            label = f"{wrapper}/{placement}[{tname(tspec)}]"
+            label = f"{wrapper}/{placement}[{tname(tspec)}]{sfx}"
             sched = "cheduled" in tname(tspec)  # inside a worker a scheduled strength depends on progress, by design
             explore_stack(lambda: make_stack(wrapper, placement, tspec), label,
                           dict(wrapper=wrapper, placement=placement, tspec=tspec), p, expect_distinct=_tensor_out(tspec),
                           maxlen=3 if _tensor_out(tspec) else 2, workers=not sched)
         else:
-            explore_stack(lambda: make_special(it[1]), it[1], dict(special=it[1]), p, expect_distinct=it[1] in ("byol_multiview", "other_items"),
-                          workers=it[1] != "semseg_scheduled")
+            explore_stack(lambda: make_special(it[1]), it[1] + sfx, dict(special=it[1], seed0=bool(sfx)), p,
+                          expect_distinct=it[1] in ("byol_multiview", "other_items"), workers=it[1] != "semseg_scheduled")
     p.sample(dict(item=[str(x) for x in items[0]], histories="all access sequences of length<=3 x perturbation; workers 1..3"))
     return p
 
@@ -358,6 +368,10 @@ def run(run):
                 items.append(("spec", wrapper, placement, s))
     for sp in SPECIALS:
         items.append(("special", sp))
+        items.append(("special", sp, "seed0"))  # seed 0 is legal and falsy
+    for s in probes:
+        for wrapper in WRAPPERS:
+            items.append(("spec", wrapper, "bare", s, "seed0"))
     chunk = 6
     run.pmap(task, [items[i:i + chunk] for i in range(0, len(items), chunk)])
     run.exhaustive = run.tier == "thorough"
@@ -377,6 +391,7 @@ def _t(x):
 def replay(case):
     p = Partial()
     cat.discover()
+    _SEED_OVERRIDE[0] = 0 if case.get("seed0") else None
     if case.get("special"):
         explore_stack(lambda: make_special(case["special"]), case["special"], dict(special=case["special"]), p, False)
     else:
